@@ -48,6 +48,10 @@ For(v, c, b) == [t |-> "for", tag |-> "for", var |-> v, coll |-> c, body |-> b]
 If(c, b) == [t |-> "if", branches |-> <<[c |-> c, body |-> b]>>]
 Eq(a, b) == [t |-> "cmp", op |-> "==", a |-> a, b |-> b]
 Cyc == [t |-> "cycle", vals |-> << <<97>>, <<98>> >>]
+Cmp(op, a, b) == [t |-> "cmp", op |-> op, a |-> a, b |-> b]
+XWhere(e, v, cnd) == [t |-> "xwhere", e |-> e, var |-> v, c |-> cnd]
+AA == <<97>>
+Arr12 == Lit(Arr(<<IntV(1), IntV(2)>>))
 Paren(n) == <<T(<<40>>), Ob(Var(n)), T(<<41>>)>>
 
 ArgText == <<120, 32, 32, 121, 32, 124, 32, 122>>                   \* x  y | z
@@ -112,6 +116,14 @@ Pool == <<
   << <<XB(1, <<T(<<10>>), Ob(DivZero)>>)>>, <<Cap(W1, <<T(<<10>>), Ob(DivZero)>>)>> >>,
   (* 23 a capture around a block *)
   << <<Cap(V, <<XB(1, <<Ob(Var(X))>>)>>), T(<<61>>), Ob(Var(V))>>, <<Cap(V, <<T(<<40>>), Ob(Var(X)), T(<<41>>)>>), T(<<61>>), Ob(Var(V))>> >>,
+  (* 25 a filter with a Closure parameter: the condition is evaluated per element, with the element bound on top of the
+        current bindings (n is the includer's), and the name does not stay bound *)
+  << <<Asg(W2, XWhere(Var(AA), X, Cmp("<", Var(X), Var(NN)))), For(I, Var(W2), <<Ob(Var(I)), T(<<44>>)>>)>>,
+     <<Cap(W1, <<For(I, Var(AA), <<If(Cmp("<", Var(I), Var(NN)), <<Ob(Var(I)), T(<<44>>)>>)>>)>>), Ob(Var(W1))>> >>,
+  (* 26 ... in a pipeline, the condition a property test *)
+  << <<Ob(Fl(Fl(XWhere(Var(AA), Z, Cmp(">", Var(Z), Lit(IntV(1)))), "reverse", <<>>), "join", <<Lit(Str(<<43>>))>>))>>, <<T(<<51, 43, 50>>)>> >>,
+  (* 27 ... a condition that fails: the error is the object's *)
+  << <<T(<<10>>), Ob(XWhere(Var(AA), Z, DivZero))>>, <<T(<<10>>), Ob(DivZero)>> >>,
   (* 24 the probe: what the statements before left behind *)
   << <<T(<<59>>), Ob(Var(X)), T(<<44>>), Ob(Var(V)), T(<<44>>), Ob(Var(Z)), T(<<44>>), Ob(Var(PP)), T(<<59>>)>>,
      <<T(<<59>>), Ob(Var(X)), T(<<44>>), Ob(Var(V)), T(<<44>>), Ob(Var(Z)), T(<<44>>), Ob(Var(PP)), T(<<59>>)>> >>
@@ -127,7 +139,7 @@ Sep == T(<<126>>)
 ProgOf(ix) == Flatten([i \in 1..Len(ix) |-> Pool[ix[i]][1] \o <<Sep>>]) \o Pool[NS][1]
 TwinOf(ix) == Flatten([i \in 1..Len(ix) |-> Pool[ix[i]][2] \o <<Sep>>]) \o Pool[NS][2]
 
-Env == << <<X, Str(<<104, 105>>)>>, <<NN, IntV(3)>>, <<M, MapV(<< <<<<121>>, IntV(5)>> >>)>> >>
+Env == << <<AA, Arr(<<IntV(1), IntV(2), IntV(3)>>)>>, <<X, Str(<<104, 105>>)>>, <<NN, IntV(3)>>, <<M, MapV(<< <<<<121>>, IntV(5)>> >>)>> >>
 Cx == [Cx0 EXCEPT !.path = TopPath, !.fs = << <<FLiq, FBody>> >>, !.cache = << <<GLiq, GBody>> >>]
 
 Init == \E ix \in Programs : p = ix /\ st = InitSt(ProgOf(ix), EnvOf(Env), Sink0, Cx)
